@@ -559,8 +559,13 @@ func (c *Compiler) writeNodeDEQ(node, parent *node, recv, path, lv, rv string, d
 	}
 
 	if node.ptr {
-		c.wl("if (", lv, "==nil && ", rv, "!=nil) || (", lv, "!=nil && ", rv, "==nil) {return false}")
-		c.wl("if ", lv, "!=nil && ", rv, "!=nil {")
+		// The pointer itself: a named leaf (scalar or bytes field) is reached through its parent variable.
+		plv, prv := lv, rv
+		if len(node.name) > 0 && (node.typ == typeBasic || (node.typ == typeSlice && node.typn == "[]byte")) {
+			plv, prv = lv+"."+node.name, rv+"."+node.name
+		}
+		c.wl("if (", plv, "==nil && ", prv, "!=nil) || (", plv, "!=nil && ", prv, "==nil) {return false}")
+		c.wl("if ", plv, "!=nil && ", prv, "!=nil {")
 	}
 
 	switch node.typ {
